@@ -7,7 +7,8 @@ ID = 'C04'
 COQ_TARGETS = ['Props/Properties_C04.vo']
 PROPS_FILES = ['Props/Properties_C04.v']
 THEOREMS = ['C04_exit_wellformed', 'C04_reports_partial', 'C04_refuted', 'C04_classes_necessary', 'C04_checker_sound',
-            'C04_connect_fix_present', 'C04_connect_reports', 'C04_connect_to_exit', 'C04_connect_refuted', 'C04_connect_spec_holds']
+            'C04_connect_fix_present', 'C04_connect_reports', 'C04_connect_to_exit', 'C04_connect_refuted', 'C04_connect_spec_holds',
+            'C04_loop_long_fix_present', 'C04_quitmsg_silent', 'C04_quit_refuted']
 ENGINES = [dict(name='qrenv', c_sources=['qrenv_h.c'], extract='Extract/Extract_qrenv.v', driver='qrenv_driver.ml',
                 accepts=lambda c: c.startswith('c4 ')),
            dict(name='qrconn', c_sources=['tlssw_h.c'], extract='Extract/Extract_qrconn.v', driver='qrconn_driver.ml',
@@ -51,7 +52,7 @@ def ev(e):
         return '00' + e.hex()
     return '%02x' % e
 
-INVAL, TOOLONG, IOERR, TIMEOUT, CLOSE = 1, 2, 3, 4, 5
+INVAL, TOOLONG, IOERR, TIMEOUT, CLOSE, OPEN_CLOSE, OPEN_SILENT = 1, 2, 3, 4, 5, 6, 7
 
 def mkcase(ext, sender, rcpts, events, msg=MSGS[0], rhost=RHOST):
     return ' '.join(['c4', '%02x' % ext, R.hx(rhost), R.hx(sender), R.hx(msg), '%02x' % len(rcpts)] +
@@ -177,9 +178,21 @@ def reply_alphabet(rng=None):
         '2c-close': [b'250-a', CLOSE], '4c-close': [b'451-a', CLOSE], '5c-inval': [b'550-a', b'550-b', INVAL], '4c-short': [b'451-a', b'45'],
         '5c-timeout': [b'550-a', TIMEOUT], '4c-ioerr': [b'450-a', IOERR], '2c-toolong': [b'250-a', TOOLONG], '3c-close': [b'354-a', CLOSE],
         '5c-end': [b'550-a'], '4c-alpha': [b'421-x', b'4x1 y'],
+        # 1500 octets that never see a CRLF, then close / silence (the loop_long() path of lib/netio.c)
+        'open-close': [OPEN_CLOSE], 'open-silent': [OPEN_SILENT], '4c-open-close': [b'451-a', OPEN_CLOSE], '2c-open-silent': [b'250-a', OPEN_SILENT],
     }
 
+# what the server does in the QUIT exchange
+QUITS = {
+    'bye': [b'221 bye'], 'multi': [b'221-bye', b'221-see you', b'221 soon'], 'multi-open': [b'221-bye'], 'junk': [b'x'], 'empty': [b''],
+    'wrong': [b'500 what'], 'nul': [b'221 a\0Kfake'], 'toolong': [TOOLONG], 'inval': [INVAL], 'ioerr': [IOERR], 'timeout': [TIMEOUT], 'close': [CLOSE],
+    'none': [], 'open-close': [OPEN_CLOSE], 'open-silent': [OPEN_SILENT], 'multi-open-close': [b'221-bye', OPEN_CLOSE],
+    'multi-open-silent': [b'221-a', b'221-b', OPEN_SILENT], 'toolong-bye': [TOOLONG, b'221 bye'],
+}
+
 REDUCED = ['2', '4', '5', '3', '2m', '5m', '3m', 'short', 'close', '4c-close', '2c-close', '5mnul']
+# scripts that run through to each of the clean exits (K / Z / D behind the final dot, DATA refused, all recipients refused, MAIL FROM refused)
+TO_QUIT = [['2', '2', '3', '2'], ['2', '2', '3', '4'], ['2', '2', '3', '5m'], ['2', '2', '4'], ['2', '2', '5'], ['2', '5'], ['2', '4m'], ['5'], ['4m'], ['2', '2m', '3', '2m']]
 EXTS = [0, 1, 2, 3, 8, 9, 10, 11]
 NAMES = [b'a@example.org', b'bob@example.net', b'', b'x', b'very.long.local.part.to.make.it.longer@sub.domain.example.com', b'c@d.e', b'"q q"@f.g']
 
@@ -222,6 +235,14 @@ EHLOS = {
     '421': [b'421 closing'], 'tls': [b'250-mx', b'250-STARTTLS', b'250 PIPELINING'],
 }
 TAILS = {'bye': [b'221 bye'], 'none': [], 'multi': [b'221-bye', b'221 now'], 'long': [LONG], 'junk': [b'x']}
+# the QUIT exchange: (lines, unterminated rest)
+OPEN = b'221 ' + b'z' * 1496
+QUIT_SHAPES = {
+    'bye': ([b'221 bye'], None), 'multi': ([b'221-bye', b'221-see you', b'221 soon'], None), 'multi-open': ([b'221-bye'], None),
+    'none': ([], None), 'junk': ([b'x'], None), 'empty': ([b''], None), 'wrong': ([b'500 what'], None), 'long': ([LONG], None),
+    'long-bye': ([LONG, b'221 bye'], None), 'open': ([], OPEN), 'multi-then-open': ([b'221-bye'], OPEN), 'half': ([], b'221 by'),
+    'cr': ([], b'221 bye\r'), 'barelf': ([], b'221 bye\n221 x\r\n'), 'open-cr': ([], b'z' * 1000 + b'\r'), 'open-cr-more': ([], b'z' * 1000 + b'\rzz'), 'two': ([b'221 bye', b'221 again'], None),
+}
 
 def segments(rng, lines, unterminated=None):
     """lines -> read() segments: one per line / all in one / cut at random places"""
@@ -289,6 +310,23 @@ def gen_conn_cases(rng, tier):
         for fl in (0, SILENT):
             out.append(conn_case([conn_fields([l + b'\r\n' for l in [b'220 mx'] + EHLOS[e]], fl)]))
             out.append(conn_case([conn_fields([l + b'\r\n' for l in [b'220 mx'] + EHLOS[e] + [b'221 bye']], fl)]))
+    # every exit that goes through quitmsg() x every shape of the QUIT exchange x (server closes | stays silent)
+    G, E = [b'220 mx ESMTP'], [b'250-mx', b'250 PIPELINING']
+    ET = [b'250-mx', b'250 STARTTLS']
+    for q in sorted(QUIT_SHAPES):
+        lines, rest = QUIT_SHAPES[q]
+        for fl in (0, SILENT):
+            def pre(head, cut):
+                segs = [l + b'\r\n' for l in head + lines] + ([rest] if rest else [])
+                if cut and rest and len(rest) > 600:
+                    segs = segs[:-1] + [rest[:700], rest[700:]]
+                return segs
+            for cut in (False, True):
+                out.append(conn_case([conn_fields(pre(G + E, cut), fl)]))                                  # behind send_envelope()
+                out.append(conn_case([conn_fields(pre(G + E, cut), fl | NAMED | PINFILE | PINLOAD)]))      # pinned host without TLS: Z4.5.0, clean shutdown
+                out.append(conn_case([conn_fields(pre(G + ET, cut), fl | NAMED | PINFILE)]))               # tls_init() cannot load the pinned certificate
+                out.append(conn_case([conn_fields(pre([b'hello'], cut), fl), conn_fields(pre(G + E, False), 0)]))   # invalid greeting: QUIT, next MX
+                out.append(conn_case([conn_fields(pre(G + E, cut), fl), conn_fields(pre(G + E, False), 0)], route=1))  # no STARTTLS but client certificate: QUIT, next MX
     n = 900 if tier == 'quick' else 40000
     for _ in range(n):
         k = rng.choice([1, 1, 2, 2, 3, 4])
@@ -316,6 +354,11 @@ def gen_cases(engine, rng, tier):
                     continue
                 for ext in (0, 2):
                     out.append(mkcase(ext | rng.choice([0, 1, 8, 9]), b's@example.org', rc(n), script_of(alpha, combo)))
+    # 1b. every clean exit x every shape of the QUIT exchange, with and without PIPELINING
+    for path in TO_QUIT:
+        for q in sorted(QUITS):
+            for ext in (0, 2):
+                out.append(mkcase(ext | rng.choice([0, 1, 8, 9]), b's@example.org', rc(1), script_of(alpha, path) + QUITS[q]))
     # 2. random scripts over the whole alphabet, biased towards getting far
     N = 2200 if tier == 'quick' else 60000
     good = {'mail': ['2', '2m', '2nul'], 'rcpt': ['2', '2m', '4', '5', '4m', '5m'], 'data': ['3'], 'dot': ['2', '2m', '4', '5', '5m']}
@@ -332,6 +375,8 @@ def gen_cases(engine, rng, tier):
         evs = script_of(alpha, names)
         if rng.random() < 0.1:
             evs += script_of(alpha, [rng.choice(keys) for _ in range(rng.randrange(1, 4))])
+        elif rng.random() < 0.3:
+            evs += QUITS[rng.choice(sorted(QUITS))]
         ext = rng.choice(EXTS)
         msg = rng.choice(MSGS[:3]) if not (ext & 8) else rng.choice(MSGS)
         sender = rng.choice(NAMES + [b's@example.org'] * 3)
